@@ -24,6 +24,9 @@ def intervals(n):
 
 class C19(Check):
     pid = "C19"
+    level_text = (
+        "Bounded exhaustive: all interval pairs in a range for the predicates; all placements of <=4 fragments for the scan, scanned again after modifications; CLI slice."
+    )
     technique = (
         "exhaustive scope enumeration on the real interval predicates and all-against-all scan: all interval pairs in a bounded "
         "range, all placements of <= K fragments; brute-force set of intersecting same-name pairs as reference"
